@@ -73,6 +73,120 @@ func extractC10(c *Ctx) {
 	}
 	c.Add("c10FallbackFormat", "String", LeanStr(format), fsrc, "format of the plain-text fallback in transcodeError")
 	c.Add("c10FallbackHeaders", "List String", LeanStrList(cts), fsrc, "header values set on the fallback path of transcodeError")
+
+	extractC10Options(c)
+}
+
+// Option plumbing facts (bridge.go, transcoding/http.go):
+//   - c10NewWebBridgeTranscoderArg: the argument NewWebBridge passes to transcoding.NewStandardTranscoder;
+//   - c10NewWebBridgeWrites: every place in NewWebBridge that writes to (a field of) options.transcoderOpts:
+//     left-hand sides of assignments / inc-dec, and transcoderOpts values handed to append or taken by address;
+//   - c10MarshalerOptions: (function, assigned field, assigned value) of the option constructors that touch transcoderOpts;
+//   - c10WithDefaults: (guard, assigned field, value) of every `if <guard> { o.F = v }` of StandardTranscoderOpts.withDefaults;
+//   - c10WithDefaultsUnguarded: assignments to the receiver's fields in withDefaults that are not of that shape.
+func extractC10Options(c *Ctx) {
+	arg, writes, src := "?", []string{}, ""
+	if fd := c.FuncDecl("bridge.go", "", "NewWebBridge"); fd != nil {
+		src = c.Pos(fd)
+		ast.Inspect(fd.Body, func(n ast.Node) bool {
+			switch x := n.(type) {
+			case *ast.CallExpr:
+				if sel, ok := x.Fun.(*ast.SelectorExpr); ok && sel.Sel.Name == "NewStandardTranscoder" && len(x.Args) == 1 {
+					arg = c.Src(x.Args[0])
+				}
+				if id, ok := x.Fun.(*ast.Ident); ok && id.Name == "append" {
+					for _, a := range x.Args {
+						if strings.Contains(c.Src(a), "transcoderOpts") {
+							writes = append(writes, "append:"+c.Src(a))
+						}
+					}
+				}
+			case *ast.AssignStmt:
+				for _, l := range x.Lhs {
+					if strings.Contains(c.Src(l), "transcoderOpts") {
+						writes = append(writes, c.Src(l))
+					}
+				}
+			case *ast.IncDecStmt:
+				if strings.Contains(c.Src(x.X), "transcoderOpts") {
+					writes = append(writes, c.Src(x.X))
+				}
+			case *ast.UnaryExpr:
+				if x.Op == token.AND && strings.Contains(c.Src(x.X), "transcoderOpts") {
+					writes = append(writes, "&"+c.Src(x.X))
+				}
+			}
+			return true
+		})
+	}
+	c.Add("c10NewWebBridgeTranscoderArg", "String", LeanStr(arg), src, "argument of transcoding.NewStandardTranscoder in NewWebBridge")
+	c.Add("c10NewWebBridgeWrites", "List String", LeanStrList(writes), src, "writes to options.transcoderOpts inside NewWebBridge")
+
+	optRows := []string{}
+	if f := c.File("bridge.go"); f != nil {
+		for _, d := range f.Decls {
+			fd, ok := d.(*ast.FuncDecl)
+			if !ok || fd.Recv != nil || fd.Body == nil || fd.Name.Name == "NewWebBridge" {
+				continue
+			}
+			ast.Inspect(fd.Body, func(n ast.Node) bool {
+				as, ok := n.(*ast.AssignStmt)
+				if !ok || len(as.Lhs) != 1 || len(as.Rhs) != 1 {
+					return true
+				}
+				if l := c.Src(as.Lhs[0]); strings.Contains(l, "transcoderOpts") {
+					optRows = append(optRows, fmt.Sprintf("(%s, %s, %s)", LeanStr(fd.Name.Name), LeanStr(l), LeanStr(c.Src(as.Rhs[0]))))
+				}
+				return true
+			})
+		}
+	}
+	sortStrings(optRows)
+	c.Add("c10MarshalerOptions", "List (String × String × String)", "["+strings.Join(optRows, ", ")+"]", "bridge.go", "option constructors assigning to transcoderOpts")
+
+	guarded, unguarded, wsrc := []string{}, []string{}, ""
+	if fd := c.FuncDecl("transcoding/http.go", "StandardTranscoderOpts", "withDefaults"); fd != nil {
+		wsrc = c.Pos(fd)
+		recv := "o"
+		if len(fd.Recv.List[0].Names) == 1 {
+			recv = fd.Recv.List[0].Names[0].Name
+		}
+		seen := map[*ast.AssignStmt]bool{}
+		for _, st := range fd.Body.List {
+			ifs, ok := st.(*ast.IfStmt)
+			if !ok || ifs.Else != nil || ifs.Init != nil || len(ifs.Body.List) != 1 {
+				continue
+			}
+			as, ok := ifs.Body.List[0].(*ast.AssignStmt)
+			if !ok || len(as.Lhs) != 1 || len(as.Rhs) != 1 {
+				continue
+			}
+			seen[as] = true
+			guarded = append(guarded, fmt.Sprintf("(%s, %s, %s)", LeanStr(c.Src(ifs.Cond)), LeanStr(c.Src(as.Lhs[0])), LeanStr(c.Src(as.Rhs[0]))))
+		}
+		ast.Inspect(fd.Body, func(n ast.Node) bool {
+			as, ok := n.(*ast.AssignStmt)
+			if !ok || seen[as] {
+				return true
+			}
+			for _, l := range as.Lhs {
+				if strings.HasPrefix(c.Src(l), recv+".") || c.Src(l) == recv {
+					unguarded = append(unguarded, c.Src(l))
+				}
+			}
+			return true
+		})
+	}
+	c.Add("c10WithDefaults", "List (String × String × String)", "["+strings.Join(guarded, ", ")+"]", wsrc, "guarded assignments of withDefaults, in order")
+	c.Add("c10WithDefaultsUnguarded", "List String", LeanStrList(unguarded), wsrc, "other assignments to the receiver in withDefaults")
+}
+
+func sortStrings(xs []string) {
+	for i := 1; i < len(xs); i++ {
+		for j := i; j > 0 && xs[j] < xs[j-1]; j-- {
+			xs[j], xs[j-1] = xs[j-1], xs[j]
+		}
+	}
 }
 
 var gwRequire = regexp.MustCompile(`(?m)^\s*github\.com/grpc-ecosystem/grpc-gateway/v2\s+(v\S+)`)
